@@ -61,6 +61,13 @@ def parseOp (args : List String) : Option Op :=
     let k ← Hex.decode k
     let v ← Hex.decode v
     some (.put s p k v)
+  | ["iterp", sl, p, a, sc] => do
+    -- bucket.NewIterator(db.BytesPrefix(prefix)): the range the wallet builds for prefix iteration
+    let s ← parseSlot sl
+    let p ← parsePath p
+    let a ← Hex.decode a
+    let sc ← (sc.splitOn ",").mapM parseStep
+    some (.iter s p a ((Model.KV.bytesPrefixLimit a).getD []) sc)
   | ["iter", sl, p, a, b, sc] => do
     let s ← parseSlot sl
     let p ← parsePath p
